@@ -235,6 +235,13 @@ theorem C15_alloc_finds_free_id (reqs : List (Nat × Req)) (alloc : Nat) (h : re
     probe reqs 65536 alloc ≠ 0 ∧ find reqs (probe reqs 65536 alloc) = none :=
   probe_good reqs alloc h
 
+/-- **C15_socket_path.** A datagram arriving on the client's UDP socket is what `onUdpRecv` gets,
+cut to the 4096 bytes of `UdpSocket`'s receive buffer: every statement above about `recv`
+(`C15_only_encoded_callbacks`, `C15_unknown_ignored`, …) holds for `net` with `d.take 4096`. -/
+theorem C15_socket_path (st : St) (d : List Byte) :
+    step st (.net d) = step st (.recv (d.take 4096)) ∧ (d.take 4096).length ≤ 4096 :=
+  ⟨rfl, by simp [List.length_take]; omega⟩
+
 /-! ### the as-found id allocation (before patches/C15-04) violates "exactly once" -/
 
 /-- the id counter stands at 0 again (65 536 lookups later) while lookup 0 (id 1) is outstanding -/
